@@ -99,7 +99,7 @@ def run(prog, job: dict) -> dict:
 
     paths = []
     funcs: set[str] = set()
-    for it, outcome in explore(prog, scenario, max_paths=8, generic_strings=True):
+    for it, outcome in explore(prog, scenario, max_paths=8, generic_strings=True, tunable_scale=job.get("tunable_scale")):
         for e in it.events:
             if e["kind"] == "call":
                 funcs.add(f"{e['module']}.{e['func']}")
@@ -140,7 +140,7 @@ def run_file(prog, job: dict) -> dict:
         return {"at_pull": at_pull, "raw_writes": len(raw), "total": total, "n": n, "closed": bool(sink.attrs.get("closed_by_wrapper"))}
 
     paths = []
-    for it, outcome in explore(prog, scenario, max_paths=8, generic_strings=True):
+    for it, outcome in explore(prog, scenario, max_paths=8, generic_strings=True, tunable_scale=job.get("tunable_scale")):
         paths.append(outcome[1] if outcome[0] == "ok" else {"raise": it.exc_class_name(outcome[1].exc), "site": str(outcome[1].site)})
     return {"job": job, "paths": paths}
 
@@ -165,6 +165,10 @@ def check(chk: Check) -> None:
             if kind == "stream_frames":
                 for fs in (1, 3, 6):
                     jobs.append(dict(name=name + " [caller-supplied flow]", integ=integ, kind=kind, physical=physical, frame_size=fs, logical="explicit-flow", explicit_flow=True))
+    # thresholds written in the source (batch sizes, buffer depths) scaled below the 7-9 statements of the workloads
+    from .. import tunables
+
+    jobs += [dict(jb, tunable_scale=tunables.SCALE, name=jb["name"] + f" [tunables={tunables.SCALE}]") for jb in jobs if jb["frame_size"] in (3, 6)]
     for res in pmap(run, jobs):
         if res is None:
             continue
@@ -200,6 +204,7 @@ def check(chk: Check) -> None:
     re_ = "C11.PATH.sink-handover"
     chk.rule(re_, "flat_stream_to_file: whenever the input is asked for the next statement, every statement consumed so far is either pending in the flow or already written to the caller's sink (nothing is parked in a private buffer)", floor=30)
     fjobs = [dict(integ=integ, physical=physical, frame_size=fs, pyclass=pyc, sink=sname) for integ in ("generic", "rdflib") for physical in (1, 2) for fs in ((1, 2, 3, 5, 8) if chk.tier == "thorough" else (1, 3)) for sname, pyc in SINKS]
+    fjobs += [dict(jb, tunable_scale=tunables.SCALE, sink=jb["sink"] + f" [tunables={tunables.SCALE}]") for jb in fjobs if jb["frame_size"] == 3]
     for res in pmap(run_file, fjobs):
         if res is None:
             continue
@@ -229,11 +234,12 @@ def check(chk: Check) -> None:
                         if src != "seekable" and (physical != 1 or j == 4):
                             continue
                         ljobs.append(dict(physical=physical, complete=j, cut="torn", integ=integ, parser=parser, source=src))
+    ljobs += [dict(jb, tunable_scale=tunables.SCALE) for jb in ljobs if jb["complete"] in (2, 4)]
     for res in pmap(c10.run, ljobs):
         if res is None:
             continue
         jb = res["job"]
-        inst = f"{jb['integ']}.{jb['parser']} physical={jb['physical']} {jb.get('source', 'seekable')} source stalls after frame {jb['complete']}"
+        inst = f"{jb['integ']}.{jb['parser']} physical={jb['physical']} {jb.get('source', 'seekable')} source stalls after frame {jb['complete']}" + (f" [tunables={jb['tunable_scale']}]" if jb.get("tunable_scale") else "")
         for p in res["paths"]:
             chk.paths += 1
             flat = tuple(x for s in p["got"] for x in s) if jb["parser"].endswith("grouped") else p["got"]
